@@ -16,6 +16,7 @@ package sched
 import (
 	"context"
 	"fmt"
+	"runtime"
 	"strings"
 	"sync"
 	"sync/atomic"
@@ -179,14 +180,15 @@ func (c *Controller) onHook(point string, args ...interface{}) {
 		x ^= x >> 29
 		x *= 0xbf58476d1ce4e5b9
 		x ^= x >> 32
-		if d := x % 400; d < 200 {
-			if d < 20 {
-				time.Sleep(time.Duration(d*10) * time.Microsecond)
-			} else if d < 100 {
-				for i := uint64(0); i < d*30; i++ {
-					_ = curGIDCheap()
-				}
+		switch d := x % 1000; {
+		case d < 15: // a real sleep of 0–200 µs (lets other goroutines overtake)
+			time.Sleep(time.Duration((x>>20)%200) * time.Microsecond)
+		case d < 150: // a short busy delay of 0–30 µs
+			for end := time.Now().Add(time.Duration((x>>20)%30) * time.Microsecond); time.Now().Before(end); {
+				_ = curGIDCheap()
 			}
+		case d < 200:
+			runtime.Gosched()
 		}
 		return
 	}
